@@ -425,6 +425,12 @@ func (o *ObjectSchema) validateStruct(data any) error {
 }
 
 func (o *ObjectSchema) validateSchemaCompatibility(schemaType Object) error {
+	if other, isObjectSchema := schemaType.(*ObjectSchema); isObjectSchema && other == o {
+		// An object is compatible with itself. Besides saving work, this is what lets a scope with
+		// self-referential objects be compared with itself at all: following the references would
+		// come back to this very pair forever.
+		return nil
+	}
 	fieldData := map[string]any{}
 	// Validate IDs if both schemas require it to be enforced.
 	if !schemaType.IDUnenforced() && !o.IDUnenforced() && schemaType.ID() != o.ID() {
